@@ -251,7 +251,10 @@ impl<'a> GeneratorState<'a> {
                             } else {
                                 dasm_operand = variable.to_string();
                             }
-                            if v.memory == VariableMemory::Zeropage {
+                            // A constant pointer into page zero indexed by a constant may leave page zero
+                            let leaves_zeropage = matches!(&v.def,
+                                VariableDefinition::Value(VariableValue::Int(a)) if *a + off > 0xff);
+                            if v.memory == VariableMemory::Zeropage && !leaves_zeropage {
                                 cycles += 1;
                                 nb_bytes = 2;
                             } else {
